@@ -1,8 +1,8 @@
-\* cleanup alphabet: push pop add_cleanup (3 callables x raising x bare/args x layer) use_fixture (4 kinds)
+\* two Contexts in one process: 2 operations (cleanup alphabet, 2 callables, + set/del of one name), end of run, new Context, 1 operation, end of run
 INIT Init
 NEXT Next
 CONSTANTS
-  OpsAt <- Ops2222
+  OpsAt <- Ops2000
   UNames = {1}
   Vals = {1}
   WithFailed = FALSE
@@ -11,13 +11,13 @@ CONSTANTS
   WithReads = FALSE
   WithMode = FALSE
   WithExec = FALSE
-  MaxIds = 3
+  MaxIds = 2
   ArgModes = {0, 1}
-  WithFixtures = TRUE
-  WithAttrs = FALSE
+  WithFixtures = FALSE
+  WithAttrs = TRUE
   NestSet <- NestNone
-  TwoRuns = FALSE
-  OpsB = 0
+  TwoRuns = TRUE
+  OpsB = 1
 INVARIANT Visible
 INVARIANT Shadow
 INVARIANT DeleteLocal
